@@ -352,10 +352,17 @@ def _do_run(check, check_mod, pool, tier, seed, t_start, max_cases, nworkers, ti
             # cases that already carry a violation go through the gate (three runs) anyway; the sample is drawn
             # from the others, so that a program made nondeterministic by the very defect a check reports is not
             # mistaken for a nondeterministic harness
-            clean = [i for i in order if not results[i]['violations']]
+            # (and not from cases whose enumeration was cut short by the time cap, nor at all once the cap has passed:
+            # a re-run would be cut at another point, which says nothing about determinism)
+            clean = [i for i in order if not results[i]['violations'] and not results[i]['probes'].get('enumeration-cut-short')]
+            if time.time() - t_start > cap:
+                clean = []
+                say('time cap reached: determinism re-run skipped')
             step = max(1, len(clean) // k)
             resample = [(seed, tier, i) for i in clean[::step][:k]]
             for od2 in pool.imap_unordered(_worker_run, resample, chunksize=1):
+                if not od2.get('error') and od2['probes'].get('enumeration-cut-short'):
+                    continue      # the cap passed while this one was being re-run
                 det_checked += 1
                 if od2.get('error') or outcome_digest(od2) != outcome_digest(results[od2['index']]):
                     det_mismatch += 1
